@@ -73,6 +73,7 @@ func (c *Ctx) step(st *State, fr *Frame, ins ssa.Instruction) []cont {
 			bs[i] = c.reg(fr, b, st)
 		}
 		fr.regs[x] = c.funcValue(st, x.Fn.(*ssa.Function), bs)
+		c.checkCaptures(st, fr, x, x.Fn.(*ssa.Function), bs)
 		return one(st, fr)
 	case *ssa.MakeMap:
 		m := c.NewRef(st, "map")
@@ -854,4 +855,35 @@ func (c *Ctx) assignedVars(fn *ssa.Function) map[ast.Expr]string {
 	}
 	c.assigned[fn] = m
 	return m
+}
+
+// checkCaptures: the `captures` clauses of a closure's contract are facts about its captured
+// variables that hold when the closure is created (and, being about immutable state, whenever
+// it runs): asserted here, assumed at the closure's entry.
+func (c *Ctx) checkCaptures(st *State, fr *Frame, ins ssa.Instruction, fn *ssa.Function, bindings []Value) {
+	ct := c.Contracts[c.FuncKey(fn)]
+	if ct == nil || len(ct.Captures) == 0 {
+		return
+	}
+	pf := &Frame{fn: fn, regs: map[ssa.Value]Value{}, inLoops: map[*ssa.BasicBlock]bool{}}
+	for i, fv := range fn.FreeVars {
+		if i < len(bindings) {
+			pf.regs[fv] = bindings[i]
+		}
+	}
+	saved := c.cur
+	env := c.envForFrame(st, pf)
+	c.cur = saved
+	for i, r := range ct.Captures {
+		t, err := c.evalGoal(env, r.Expr)
+		if err != nil {
+			c.Errorf("CONTRACT-ERROR %s: %v", r.Line, err)
+			continue
+		}
+		label := r.Label
+		if label == "" {
+			label = fmt.Sprintf("captures.%d", i+1)
+		}
+		c.Oblige(st, fr, ins, "pre", "captures "+label, t, c.ShortName(c.FuncKey(fn))+" captures "+r.Text)
+	}
 }
